@@ -94,7 +94,9 @@ Definition api_gmp_scan_partial : api := fun a =>
 (* ---- %Fe / %Ff: certificate evaluated on the library's output (doprntf.c is not modelled):
    ffmtcheck conv P width mant e2 out : out is [blanks][-]digits[.digits][e+-dd] of the right shape for the
    conversion with P digits after the point, at least width bytes, and the decimal number it spells is within
-   half a unit (plus one part in a thousand) of its last digit of |mant * 2^e2|; the sign agrees ---- *)
+   half a unit of its last digit of |mant * 2^e2| plus a slack: one part in a thousand for %e (one rounding, by mpf_get_str),
+   one part in a hundred for %f, which by doprntf.c's stated method rounds mpf_get_str's digits, themselves rounded two
+   places further right, a second time (0.4983 printed with %.0Ff is "1"); the sign agrees ---- *)
 Fixpoint skip_blanks (s : list Z) : list Z := match s with 32 :: r => skip_blanks r | _ => s end.
 Fixpoint split_digits (s : list Z) (acc : list Z) : list Z * list Z :=
   match s with c :: r => if is_digit c then split_digits r (c :: acc) else (rev acc, s) | [] => (rev acc, []) end.
@@ -126,5 +128,5 @@ Definition api_ffmtcheck : api := fun t =>
   let vn := Z.abs mant * (if 0 <=? e2 then 2 ^ e2 else 1) in let vd := if 0 <=? e2 then 1 else 2 ^ (- e2) in
   let un := if 0 <=? k then 10 ^ k else 1 in let ud := if 0 <=? k then 1 else 10 ^ (- k) in   (* ulp = un / ud *)
   (* |D un / ud - vn / vd| * 2000 <= 1001 un / ud   <=>   |D un vd - vn ud| * 2000 <= 1001 un vd *)
-  let ok := Z.abs (D * un * vd - vn * ud) * 2000 <=? 1001 * un * vd in
+  let ok := Z.abs (D * un * vd - vn * ud) * 2000 <=? (if conv =? 101 then 1001 else 1010) * un * vd in
   [TZ (b2z (shape && ok))].
